@@ -88,6 +88,44 @@ func indexBoundedD(idx ssa.Value, use ssa.Instruction, depth int) (bool, string)
 		}
 		// a boolean computed by a helper that also returns the position (`node, i, ok := locate(k); if !ok {return}`):
 		// the helper's own expression for that result says what the observed value means for the position it returns
+		// a predicate helper applied to the position: `if !opts.reachedEntry(node, i) { return }` — what the helper's
+		// result means for its parameter is read off the helper's own return expression
+		if pc, ok := fc.Cond.(*ssa.Call); ok {
+			h := ir.Callee(pc.Call)
+			if h == nil || h.Blocks == nil || h.Pkg == nil || len(pc.Call.Args) != len(h.Params) {
+				return false
+			}
+			n := 0
+			for _, r := range ir.Returns(h) {
+				if len(r.Results) != 1 {
+					return false
+				}
+				rv := ir.ResolveCell(r.Results[0])
+				if cb, isC := ir.ConstBool(rv); isC {
+					if cb != fc.Truth {
+						continue
+					}
+					return false
+				}
+				n++
+				okRet := false
+				for _, f2 := range ir.ExpandFacts([]ir.Fact{{Cond: rv, Truth: fc.Truth, From: r.Block()}}) {
+					if belowLenFact(f2, func(v ssa.Value) bool {
+						p, isP := ir.ResolveCell(v).(*ssa.Parameter)
+						if !isP || p.Parent() != h {
+							return false
+						}
+						return ir.Sym(pc.Call.Args[paramIndex(p)]) == isym
+					}) {
+						okRet = true
+					}
+				}
+				if !okRet {
+					return false
+				}
+			}
+			return n > 0
+		}
 		ex, ok := fc.Cond.(*ssa.Extract)
 		if !ok {
 			return false
